@@ -79,8 +79,11 @@ def gen(rng, tier):
         for n in cuts:
             out.append(dict(spec=spec, cut=n))
     # slab formats
-    for fi in range(3 if tier == 'quick' else 10):
-        c = S.gen(rng)
+    fmts = ['temperature', 'height_pressure', rng.choice(['one3d', 'humidity', 'vertical_diffusivity'])]
+    if tier != 'quick':
+        fmts = fmts * 2 + sorted(S.FORMATS)
+    for fmt in fmts:
+        c = S.gen(rng, fmt)
         c['nx'], c['ny'] = min(c['nx'], 2), min(c['ny'], 2)
         c['data'] = [[sl[:c['nx'] * c['ny']] for sl in slabs] for slabs in c['data']]
         rec = 4 * (c['nx'] * c['ny'] + 4)
